@@ -1,0 +1,14 @@
+//go:build verif
+
+package mq
+
+// VerifStep, when set, is called at the top of every guarded read of
+// the decoder (buffer.get). Only compiled with the build tag verif;
+// used by the verification harness to count decoding steps.
+var VerifStep func(v interface{}, i, n int, errSet bool)
+
+func verifStep(b *buffer, v wireType) {
+	if VerifStep != nil {
+		VerifStep(v, b.i, len(b.data), b.err != nil)
+	}
+}
